@@ -385,6 +385,9 @@ func f1Probe() *Sim {
 }
 
 func runC03(sh *core.Shard, a props.Args) {
+	if !runC03Sockets(sh, a.Pick(48, 1600), a.Mine, a.CaseSeed) {
+		return
+	}
 	runs := a.Pick(320, 8000)
 	if a.Shard == 0 {
 		s := f1Probe()
@@ -600,13 +603,13 @@ func replayC03(raw json.RawMessage) (string, bool) {
 func init() {
 	props.Register(&props.Prop{
 		ID: "C03", Level: "exploration",
-		Rule: "start states: (a) the divergent state left by a random history with heavy loss, duplication, delay, truncation, compaction, leave and stream join (no expiry), (b) hand-shaped states (introduction chain where each node knows one peer, one owner with up to 500 entries of 0..600 byte values and unicode keys, intermediate compactions seen by some, a late-starting node), (c) the state left by a history with liveness/expiry/delay (F3-tainted pairs classified by provenance). Then writes stop, the packet size is redrawn from the feasibility edge (largest single entry / digest element) upwards, and a fair closure runs (every live node gossips once with every live node it knows per sweep, loss-free). Oracle: potential never increases, reaches 0 within 200+4*phi0 sweeps, no 200-sweep window without progress, and at 0 every view deep-equals the owner's state (entries incl. tombstones, versions) with no left/unreachable flag; the C02 authenticity/completeness monitor runs after every step. Stalls explained by an individually oversize entry are known finding F1; tainted pairs are F3. Non-trivial = closure started from a divergent state, ended in exact equality, and saw truncated deltas; distinct = hash of (variant, config, closure size, phi0, sweeps, final states).",
+		Rule: "real-socket leg: three gossip.New instances over loopback UDP/TCP (real Serve loops and read buffers, 5 ms interval) with a maximum packet size drawn from 600 B to 16 KiB and values up to a third of it; after a seeded history of 60-260 writes/deletes/compactions the views must equal the owners' states; a round is a violation only if that has not happened 60 s after the last update and no view has changed for 15 s (a stall, not slowness). Simulator legs: start states: (a) the divergent state left by a random history with heavy loss, duplication, delay, truncation, compaction, leave and stream join (no expiry), (b) hand-shaped states (introduction chain where each node knows one peer, one owner with up to 500 entries of 0..600 byte values and unicode keys, intermediate compactions seen by some, a late-starting node), (c) the state left by a history with liveness/expiry/delay (F3-tainted pairs classified by provenance). Then writes stop, the packet size is redrawn from the feasibility edge (largest single entry / digest element) upwards, and a fair closure runs (every live node gossips once with every live node it knows per sweep, loss-free). Oracle: potential never increases, reaches 0 within 200+4*phi0 sweeps, no 200-sweep window without progress, and at 0 every view deep-equals the owner's state (entries incl. tombstones, versions) with no left/unreachable flag; the C02 authenticity/completeness monitor runs after every step. Stalls explained by an individually oversize entry are known finding F1; tainted pairs are F3. Non-trivial = closure started from a divergent state, ended in exact equality, and saw truncated deltas; distinct = hash of (variant, config, closure size, phi0, sweeps, final states).",
 		Assumptions: []string{
 			"'eventually' restated as the sweep bound above; fairness = every known live pair exchanges once per sweep, loss-free",
 			"sequentially consistent scheduler; liveness re-evaluated each sweep in expiry runs so stale unreachable flags clear",
 			"packet sizes below the feasibility edge are not required to converge (C13 covers them for safety)",
 		},
-		RequireCounters: []string{"closures_from_divergent_state", "pairs_converged_exactly", "truncated_deltas", "truncated_digests", "compactions", "closure_sweeps_total"},
+		RequireCounters: []string{"closures_from_divergent_state", "pairs_converged_exactly", "truncated_deltas", "truncated_digests", "compactions", "closure_sweeps_total", "socket_rounds_converged", "socket_rounds_with_large_packets"},
 		MaxCounters:     []string{"closure_sweeps_max"},
 		Timeout:         simTimeout(10*time.Minute, 120*time.Minute),
 		Run:             runC03,
